@@ -158,10 +158,22 @@ CHECKS["C20"] = dict(
     note="Partial: fit (least squares via sklearn), simulate, pdf values, canonical-form conversion/product, LAPACK itself and the 8-decimal rounding are "
          "outside. Bounds: <=3 nodes (4 thorough).", ref="5/C20")
 
+CHECKS["C19"] = dict(
+    text="pgmpy's own part of the discrete tests - argument handling, stratification by the conditioning variables, construction of each stratum's "
+         "contingency table (unique/inverse index arithmetic and reshape), accumulation of statistic and degrees of freedom, p-value and boolean verdict in "
+         "power_divergence and its wrappers chi_square / g_sq / log_likelihood / modified_log_likelihood - runs symbolically on a frame that holds one row "
+         "per occupied cell with a SYMBOLIC positive multiplicity, i.e. on every data set with that support at once; the results are shown equal, for all "
+         "multiplicities and every lambda, to the documented stratified power-divergence test written from the multiplicities, symmetric in X and Y, "
+         "invariant to row/column order and to the order of the conditioning variables, zero with p-value one on product-form (exactly independent) "
+         "tables, verdict = (p >= symbolic significance level). The partial-correlation test runs on symbolic X and Y columns: its coefficient (r^2 and "
+         "sign) is shown equal to the Pearson correlation of OLS residuals and invariant under symbolic shifts and positive rescalings.",
+    note="Partial: numpy's counting, scipy.stats.chi2_contingency / chi2.cdf / pearsonr and numpy.linalg.lstsq are MODELS here (documented algorithm over "
+         "symbolic counts; log, non-integer powers, the chi-square CDF and the correlation p-value are uninterpreted functions); the models are validated "
+         "against the real compiled kernels by the concrete twin of every scenario (integer multiplicities, real scipy), not by the solver. Numeric values "
+         "of the special functions, pillai_trace and floating-point rounding are outside. Bounds: X,Y <=3 states, <=2 conditioning variables, <=6 rows for "
+         "the partial-correlation test with concrete conditioning columns.", ref="5/C19")
+
 NOT_APPLICABLE = {
-    "C19": "statistic, dof and p-value are produced inside pandas.groupby / numpy.bincount / scipy.stats.chi2_contingency / chi2.cdf "
-           "(compiled kernels, special functions); no symbolic value survives into them and an FP + special-function encoding is out of "
-           "reach of z3/cvc5 (DESIGN.md 5/C19)",
 }
 
 
